@@ -140,7 +140,7 @@ def url_eq_lines(rng, n):
     stamp = Stamp(rng)
     cases = []
     odd = ['web/2019052514153/x', 'web/20190525141538', 'web/20190525141538/', 'xweb/20190525141538im_/http://www.a.b/', 'web/20190525141538im_x/',
-           'web/20190525141538js_/https://wwwxa.b/', 'web/1234567890123४/x', ';jsessionid=', ';jsessionid=;x', 'a;jsessionid=1;jsessionid=2', 'a;JSESSIONID=1',
+           'web/20190525141538js_/https://wwwxa.b/', 'web/1234567890123४/x', ';jsessionid=', ';jsessionid=;x', 'a;jsessionid=1;jsessionid=2', 'a;jsessionid=3;jsessionid=4', 'a;jsessionid=3;jsessionid=2', 'a;jsessionid=9', 'a;JSESSIONID=1',
            'https://www.webarchive.org.uk/wayback/en/archive/20190525141538mp_/http://www.x.y/', 'https://wwwXwebarchive.org.uk/wayback/en/archive/20190525141538/x',
            'web/20190525141538/web/20200101000000/z', 'web/20190525141538/http://www\n.a/', '', 'web/', ';']
     for _ in range(n):
